@@ -112,6 +112,33 @@ func emitBuiltins(em *Emitter, repoDir string, seedv int64, pass int) {
 		r := spg.NewCharRecipe(k)
 		em.Emit(map[string]interface{}{"op": "newchar", "k": k, "fields": CharSpecOf(*r), "alpha": CPs(r.Alphabet())})
 	}
+	// the default recipe with each combination of classes REQUIRED (requirements never widen or narrow "everything minus ambiguous"),
+	// and everything allowed with each combination of classes EXCLUDED
+	for f := 0; f < 32; f++ {
+		r := spg.NewCharRecipe(20)
+		r.Require = spg.CTFlag(f)
+		pws := [][]int{}
+		for kind := 0; kind < 3; kind++ {
+			e := NewEnum(*seed + int64(f))
+			e.Policy = func(j int, n uint32) uint32 {
+				switch kind {
+				case 0:
+					return uint32(e.Rng.Int63n(int64(n)))
+				case 1:
+					return uint32((j * 7) % int(n))
+				}
+				return n - 1 - uint32((j*5)%int(n))
+			}
+			e.Run(nil, func() {
+				if p, err := r.Generate(); err == nil && p != nil {
+					pws = append(pws, CPs(p.String()))
+				}
+			})
+		}
+		em.Emit(map[string]interface{}{"op": "newcharreq", "k": 20, "require": f, "fields": CharSpecOf(*r), "alpha": CPs(r.Alphabet()), "pws": pws})
+		x := spg.CharRecipe{Length: 1, Allow: spg.All, Exclude: spg.CTFlag(f)}
+		em.Emit(map[string]interface{}{"op": "classex", "flag": f, "alpha": CPs(x.Alphabet())})
+	}
 	wl, _ := spg.NewWordList([]string{"one", "two", "three"})
 	for _, k := range []int{0, 1, 4} {
 		r := spg.NewWLRecipe(k, wl)
